@@ -34,7 +34,18 @@ inductive Event
   | release (d : Dist) (scale Δ : ℝ)
   | select (e : ℝ)
 
-/-- the zCDP charge: Gaussian `Δ²/(2σ²)`, selection `e²/8`, (pure `Δ₁/b`-DP) Laplace `(Δ₁/b)²/2` -/
+/-- the zCDP charge: Gaussian `Δ²/(2σ²)`, selection `e²/8`, (pure `Δ₁/b`-DP) Laplace `(Δ₁/b)²/2`.
+
+**A non-positive scale is outside every ledger theorem's hypotheses.**  Real division by zero is 0, so
+`cost (.release .gauss 0 Δ) = 0` (`cost_zero_scale`): an un-noised release would be "free".  The number is a privacy charge
+only when the scale is positive (`PosScale`); each of the four end-to-end theorems therefore comes with a statement that every
+release event it sums has a positive scale, derived from the theorem's own hypotheses:
+* MST — `mst_events_scale_pos` (scale `σ/w`: from `0 < rho` and the hypotheses `hp1`, `hp2 : 0 < w` of `mst_total_cost_le_rho`);
+* MWEM — `mwem_events_scale_pos` (Gaussian and Laplace: from `0 < budget`, `0 < rounds`, `0 < alpha`);
+* AIM — `aim_events_scale_pos` (from the STRICT `0.9·#oneway < rounds`; at equality the last-round re-calibration divides by
+  the remaining budget 0 — the real code raises ZeroDivisionError — which is why `aim_total_cost_le_rho` asks the strict form);
+* Adaptive Grid — `ada_events_scale_pos` (from `0 < rho1`, `0 < rho3`, `#step1 ≤ n1`; an event exists only if its list is
+  non-empty, so the counts under the square roots are positive). -/
 noncomputable def cost : Event → ℝ
   | .release .gauss σ Δ => gaussCost Δ σ
   | .release .laplace b Δ => (Δ / b) ^ 2 / 2
@@ -48,6 +59,15 @@ noncomputable def costPure : Event → ℝ
 def IsPure : Event → Prop
   | .release .gauss _ _ => False
   | _ => True
+
+/-- a release at a positive scale (selections carry no scale) -/
+def PosScale : Event → Prop
+  | .release _ s _ => 0 < s
+  | .select _ => True
+
+/-- what excluding non-positive scales excludes: an un-noised release is charged 0 (division by zero), whatever `Δ` -/
+theorem cost_zero_scale (Δ : ℝ) : cost (.release .gauss 0 Δ) = 0 ∧ cost (.release .laplace 0 Δ) = 0 := by
+  constructor <;> simp [cost, gaussCost]
 
 noncomputable def total (evs : List Event) : ℝ := (evs.map cost).sum
 noncomputable def totalPure (evs : List Event) : ℝ := (evs.map costPure).sum
@@ -297,6 +317,31 @@ theorem mst_total_cost_le_rho (rho : ℝ) (g : GraphOps A DS ℝ) (cols1 : List 
   unfold mstEvents
   rw [total_append, total_append]
   linarith
+theorem measureEvents_scale_pos {C : Type} (scale : ℝ → ℝ) (x x' : C → List ℝ) (cliques : List C) (ws : List ℝ)
+    (h : ∀ w ∈ ws, 0 < scale w) : ∀ ev ∈ measureEvents scale x x' cliques ws, PosScale ev := by
+  intro ev hev
+  obtain ⟨p, hp, rfl⟩ := List.mem_map.1 hev
+  exact h p.2 (List.of_mem_zip hp).2
+
+/-- **every release of MST is at a positive scale** `σ/w`, from the hypotheses of `mst_total_cost_le_rho` -/
+theorem mst_events_scale_pos (rho : ℝ) (g : GraphOps A DS ℝ) (cols1 : List C1) (ws1 ws2 : List ℝ)
+    (cell1 : C1 → R → ℕ) (size1 : C1 → ℕ) (cell2 : List A → R → ℕ) (size2 : List A → ℕ) (attrs : List A)
+    (xest : List A → List ℝ) (msize : List A → ℝ) (mcl : List (List A)) (draws : ℕ → ℕ) (D D' : List R)
+    (hrho : 0 < rho) (hp1 : ∀ w ∈ ws1, 0 < w) (hp2 : ∀ w ∈ ws2, 0 < w) :
+    ∀ ev ∈ mstEvents inf fmax rho g cols1 ws1 ws2 cell1 size1 cell2 size2 attrs xest msize mcl draws D D', PosScale ev := by
+  have hσ : 0 < mst_sigma rho := by unfold mst_sigma; positivity
+  intro ev hev
+  unfold mstEvents at hev
+  rcases List.mem_append.1 hev with hev | hev
+  · rcases List.mem_append.1 hev with hev | hev
+    · refine measureEvents_scale_pos _ _ _ _ _ (fun w hw => ?_) ev hev
+      have := hp1 w hw
+      simp only [mst_measure_scale, mst_measure1_sigma]; positivity
+    · obtain ⟨i, hi, rfl⟩ := List.getElem_of_mem hev
+      simp only [List.getElem_zipWith]; trivial
+  · refine measureEvents_scale_pos _ _ _ _ _ (fun w hw => ?_) ev hev
+    have := hp2 w hw
+    simp only [mst_measure_scale, mst_measure2_sigma]; positivity
 end mst
 
 /-! ## 4. MWEM+PGM -/
@@ -372,16 +417,18 @@ theorem mwem_select_close (cell : C → R → ℕ) (size : C → ℕ) (D D' : Li
 
 /-- a Gaussian round costs at most `rho / rounds` -/
 theorem mwem_gauss_round_le (rho alpha : ℝ) (rounds : ℕ) (bounded : Bool) (cell : C → R → ℕ) (size : C → ℕ) (D D' : List R)
-    (rd : MwemRound C) (hrho : 0 < rho) (hr : 0 < rounds) (ha0 : 0 < alpha) (ha1 : alpha < 1)
+    (rd : MwemRound C) (hrho : 0 < rho) (hr : 0 < rounds) (ha0 : 0 < alpha) (ha1 : alpha ≤ 1)
     (hnb : Nbr bounded D D') (hsz : ∀ cl, (rd.xest cl).length = size cl) :
     total (mwemGaussRound inf fmax rho alpha rounds bounded cell size D D' rd) ≤ rho / rounds := by
   have hR : (0 : ℝ) < rounds := by exact_mod_cast hr
   have hrpr_eq : mwem_rho_per_round rho rounds = rho / rounds := by
     simp only [mwem_rho_per_round] <;> pgm_arith
   have hrpr : 0 < mwem_rho_per_round rho rounds := by rw [hrpr_eq]; positivity
-  have h1a : 0 < 1 - alpha := by linarith
+  have h1a : 0 ≤ 1 - alpha := by linarith
   have hσ2 := mwem_gau_sigma_sq alpha _ ha0 hrpr
-  have heps := mwem_gau_exp_eps_sq alpha _ h1a hrpr
+  have heps : mwem_gau_exp_eps alpha (mwem_rho_per_round rho rounds) ^ 2 = 8 * (1 - alpha) * mwem_rho_per_round rho rounds := by
+    unfold mwem_gau_exp_eps
+    exact Real.sq_sqrt (mul_nonneg (mul_nonneg (by norm_num) h1a) hrpr.le)
   have hm2 := mwem_gau_msens_sq bounded
   have hepos : 0 ≤ mwem_gau_exp_eps alpha (mwem_rho_per_round rho rounds) := by
     unfold mwem_gau_exp_eps; positivity
@@ -404,9 +451,11 @@ theorem mwem_gauss_round_le (rho alpha : ℝ) (rounds : ℕ) (bounded : Bool) (c
   rw [← hrpr_eq]
   linarith
 
-/-- **MWEM+PGM (Gaussian), end to end**: over all rounds, for both adjacency notions — the actual changes cost at most `rho` -/
+/-- **MWEM+PGM (Gaussian), end to end**: over all rounds, for both adjacency notions — the actual changes cost at most `rho`.
+`0 < alpha ≤ 1` is what the source asserts (`assert 0 < alpha <= 1`); at `alpha = 1` the selection epsilon is 0 (uniform draw,
+charge 0) and the release takes the whole round budget -/
 theorem mwem_total_cost_le_budget_gauss (rho alpha : ℝ) (rounds : ℕ) (bounded : Bool) (cell : C → R → ℕ) (size : C → ℕ)
-    (D D' : List R) (rds : List (MwemRound C)) (hrho : 0 < rho) (hr : 0 < rounds) (ha0 : 0 < alpha) (ha1 : alpha < 1)
+    (D D' : List R) (rds : List (MwemRound C)) (hrho : 0 < rho) (hr : 0 < rounds) (ha0 : 0 < alpha) (ha1 : alpha ≤ 1)
     (hlen : rds.length = rounds) (hnb : Nbr bounded D D') (hsz : ∀ rd ∈ rds, ∀ cl, (rd.xest cl).length = size cl) :
     total (rds.flatMap (mwemGaussRound inf fmax rho alpha rounds bounded cell size D D')) ≤ rho := by
   have hR : (0 : ℝ) < rounds := by exact_mod_cast hr
@@ -470,13 +519,13 @@ theorem mwem_total_cost_le_budget_laplace (epsilon alpha : ℝ) (rounds : ℕ) (
 
 /-- both variants in one statement -/
 theorem mwem_total_cost_le_budget (budget alpha : ℝ) (rounds : ℕ) (laplace bounded : Bool) (cell : C → R → ℕ) (size : C → ℕ)
-    (D D' : List R) (rds : List (MwemRound C)) (hb : 0 < budget) (hr : 0 < rounds) (ha0 : 0 < alpha) (ha1 : alpha < 1)
+    (D D' : List R) (rds : List (MwemRound C)) (hb : 0 < budget) (hr : 0 < rounds) (ha0 : 0 < alpha) (ha1 : alpha ≤ 1)
     (hlen : rds.length = rounds) (hnb : Nbr bounded D D') (hsz : ∀ rd ∈ rds, ∀ cl, (rd.xest cl).length = size cl) :
     if laplace = true then totalPure (rds.flatMap (mwemLaplaceRound inf fmax budget alpha rounds bounded cell size D D')) ≤ budget
     else total (rds.flatMap (mwemGaussRound inf fmax budget alpha rounds bounded cell size D D')) ≤ budget := by
   cases laplace
   · simpa using mwem_total_cost_le_budget_gauss inf fmax budget alpha rounds bounded cell size D D' rds hb hr ha0 ha1 hlen hnb hsz
-  · simpa using (mwem_total_cost_le_budget_laplace inf fmax budget alpha rounds bounded cell size D D' rds hb hr ha0 ha1.le hlen hnb hsz).1
+  · simpa using (mwem_total_cost_le_budget_laplace inf fmax budget alpha rounds bounded cell size D D' rds hb hr ha0 ha1 hlen hnb hsz).1
 
 /-- **outside `0 < alpha ≤ 1` the Laplace variant overspends**: the releases alone, on a record that changes the selected
 marginal by the full `trueL1`, cost `alpha · epsilon` — more than `epsilon` for `alpha > 1` (`alpha` is an undocumented
@@ -500,6 +549,30 @@ theorem mwem_laplace_alpha_gt_one_overspends (epsilon alpha : ℝ) (rounds : ℕ
   have e : (rounds : ℝ) * (alpha * (epsilon / rounds)) = alpha * epsilon := by field_simp
   rw [e]
   nlinarith
+/-- **every release of MWEM+PGM is at a positive scale** (both noise types), from `0 < budget`, `0 < rounds`, `0 < alpha` -/
+theorem mwem_events_scale_pos (budget alpha : ℝ) (rounds : ℕ) (bounded : Bool) (cell : C → R → ℕ) (size : C → ℕ)
+    (D D' : List R) (rds : List (MwemRound C)) (hb : 0 < budget) (hr : 0 < rounds) (ha0 : 0 < alpha) :
+    (∀ ev ∈ rds.flatMap (mwemGaussRound inf fmax budget alpha rounds bounded cell size D D'), PosScale ev) ∧
+    (∀ ev ∈ rds.flatMap (mwemLaplaceRound inf fmax budget alpha rounds bounded cell size D D'), PosScale ev) := by
+  have hR : (0 : ℝ) < rounds := by exact_mod_cast hr
+  have hms : 0 < mwem_gau_msens bounded := mwem_gau_msens_pos bounded
+  have hml : 0 < mwem_lap_msens bounded := by
+    cases bounded <;> simp only [mwem_lap_msens, Bool.false_eq_true, reduceIte] <;> norm_num
+  constructor
+  · intro ev hev
+    obtain ⟨rd, _, hev⟩ := List.mem_flatMap.1 hev
+    simp only [mwemGaussRound, List.mem_cons, List.not_mem_nil, or_false] at hev
+    rcases hev with rfl | rfl
+    · trivial
+    · show 0 < mwem_gau_scale _ _
+      simp only [mwem_gau_scale, mwem_gau_sigma, mwem_rho_per_round]; positivity
+  · intro ev hev
+    obtain ⟨rd, _, hev⟩ := List.mem_flatMap.1 hev
+    simp only [mwemLaplaceRound, List.mem_cons, List.not_mem_nil, or_false] at hev
+    rcases hev with rfl | rfl
+    · trivial
+    · show 0 < mwem_lap_scale _ _
+      simp only [mwem_lap_scale, mwem_lap_sigma, mwem_lap_eps_per_round]; positivity
 end mwem
 
 /-! ## 5. AIM -/
@@ -634,10 +707,13 @@ theorem aim_loop_le (rho : ℝ) (g : GraphOps C DS ℝ) (cands : List (C × ℝ)
 
 /-- **AIM, end to end**: for every sequence of rounds (annealing outcomes, models, size limits, draws), on neighbouring
 datasets, the actual changes of the one-way releases, of every selection and of every round's release cost at most `rho`
-— under `0.9·#oneway ≤ rounds`, the hypothesis `C05.aim_budget` needs -/
+— under the STRICT `0.9·#oneway < rounds`.  (`C05.aim_budget` needs only `≤`; but at equality `rho_used = rho` after the
+one-way releases, the first round re-calibrates to `sigma = sqrt(1/(2·0.9·0))` — the real code raises ZeroDivisionError — and
+the ledger would charge that release `cost (.release .gauss 0 Δ) = 0`, `cost_zero_scale`.  Under the strict form every event
+summed here has a positive scale: `aim_events_scale_pos`.) -/
 theorem aim_total_cost_le_rho (rho rounds : ℝ) (g : GraphOps C DS ℝ) (cands : List (C × ℝ)) (oneway : List C)
     (cell : C → R → ℕ) (size : C → ℕ) (D D' : List R) (rds : List (AimRound C))
-    (hrho : 0 < rho) (hrounds : 0 < rounds) (hfit : 0.9 * ((oneway.length : ℕ) : ℝ) ≤ rounds) (hnb : AddRemove D D')
+    (hrho : 0 < rho) (hrounds : 0 < rounds) (hfit : 0.9 * ((oneway.length : ℕ) : ℝ) < rounds) (hnb : AddRemove D D')
     (hok : ∀ rd ∈ rds, AimRoundOK inf fmax g cands size rd) :
     total (aimEvents inf fmax rho rounds g cands oneway cell size D D' rds) ≤ rho := by
   unfold aimEvents
@@ -656,7 +732,7 @@ theorem aim_total_cost_le_rho (rho rounds : ℝ) (g : GraphOps C DS ℝ) (cands 
   have he0 : 0 ≤ (aimInit rho rounds (oneway.length : ℕ)).epsilon := by
     simp only [aimInit]; unfold aim_eps0; positivity
   have hloop := aim_loop_le inf fmax rho g cands cell size D D' rds (aimInit rho rounds (oneway.length : ℕ)) he0 hnb hok
-  have hbud := aim_budget rho rounds oneway.length (rds.map AimRound.anneal) hrho hrounds hfit
+  have hbud := aim_budget rho rounds oneway.length (rds.map AimRound.anneal) hrho hrounds hfit.le
   linarith
 end aim
 
@@ -740,6 +816,53 @@ theorem aim_round_sigma_pos (rho rounds : ℝ) (n : ℕ) (outcomes : List Bool) 
     0 < (aimRoundParams rho (outcomes.foldl (aimStep rho) (aimInit rho rounds n))).1 :=
   aimRoundParams_sigma_pos rho _
     (foldl_inv (AimPos rho) (aimStep rho) outcomes _ (aimPos_init rho rounds n hrho hrounds hfit) (fun s b h => aimPos_step rho s b h)) ht
+
+section aimpos
+variable {C DS R : Type} [DecidableEq C]
+
+theorem aimLoopEvents_scale_pos (rho : ℝ) (g : GraphOps C DS ℝ) (cands : List (C × ℝ)) (cell : C → R → ℕ) (size : C → ℕ)
+    (D D' : List R) (rds : List (AimRound C)) (s : AimState) (h : AimPos rho s) :
+    ∀ ev ∈ aimLoopEvents inf fmax rho g cands cell size D D' rds s, PosScale ev := by
+  induction rds generalizing s with
+  | nil => intro ev hev; simp [aimLoopEvents] at hev
+  | cons rd rest ih =>
+    intro ev hev
+    simp only [aimLoopEvents, List.mem_append] at hev
+    rcases hev with hev | hev
+    · unfold aimRoundEvents at hev
+      by_cases ht : s.terminated = true
+      · simp [ht] at hev
+      · have ht' : s.terminated = false := by simpa using ht
+        rw [if_neg ht] at hev
+        simp only [List.mem_cons, List.not_mem_nil, or_false] at hev
+        rcases hev with rfl | rfl
+        · trivial
+        · show 0 < aim_noise_scale_round _
+          simp only [aim_noise_scale_round]
+          exact aimRoundParams_sigma_pos rho s h ht'
+    · exact ih _ (aimPos_step rho s rd.anneal h) ev hev
+
+/-- **every release event of `AIM.run` that `aim_total_cost_le_rho` sums is at a positive scale**, under the same strict
+`0.9·#oneway < rounds` (for every sequence of rounds) — so no charge in that sum is a division by zero -/
+theorem aim_events_scale_pos (rho rounds : ℝ) (g : GraphOps C DS ℝ) (cands : List (C × ℝ)) (oneway : List C)
+    (cell : C → R → ℕ) (size : C → ℕ) (D D' : List R) (rds : List (AimRound C))
+    (hrho : 0 < rho) (hrounds : 0 < rounds) (hfit : 0.9 * ((oneway.length : ℕ) : ℝ) < rounds) :
+    ∀ ev ∈ aimEvents inf fmax rho rounds g cands oneway cell size D D' rds, PosScale ev := by
+  intro ev hev
+  unfold aimEvents at hev
+  rcases List.mem_append.1 hev with hev | hev
+  · obtain ⟨cl, _, rfl⟩ := List.mem_map.1 hev
+    show 0 < aim_noise_scale_init _
+    simp only [aim_noise_scale_init]; unfold aim_sigma0; positivity
+  · exact aimLoopEvents_scale_pos inf fmax rho g cands cell size D D' rds _
+      (aimPos_init rho rounds oneway.length hrho hrounds hfit) ev hev
+
+/-- the boundary excluded by the strict hypothesis: with `rho_used = rho` the re-calibrated scale is 0 and the charge is 0 -/
+theorem aim_boundary_scale_zero (rho Δ : ℝ) :
+    aim_noise_scale_round (aim_sigma_last (aim_remaining rho rho)) = 0 ∧
+    cost (.release .gauss (aim_noise_scale_round (aim_sigma_last (aim_remaining rho rho))) Δ) = 0 := by
+  constructor <;> simp [cost, gaussCost, aim_noise_scale_round, aim_sigma_last, aim_remaining]
+end aimpos
 
 /-! ## 6. Adaptive Grid -/
 
@@ -954,6 +1077,31 @@ theorem ada_total_cost_le_rho_split (rho f1 f2 f3 : ℝ) (g : GraphOps A DS ℝ)
   have : rho * f1 + rho * f2 + rho * f3 = rho := by rw [← mul_add, ← mul_add, hsum, mul_one]
   rw [e1, e2, e3] at h ⊢
   linarith
+/-- **every release of Adaptive Grid is at a positive scale**, from `0 < rho1`, `0 < rho3`, `#step1 ≤ n1` (hypotheses of
+`ada_total_cost_le_steps`): a step-1 / step-3 event exists only if its list is non-empty -/
+theorem ada_events_scale_pos (rho1 rho2 rho3 : ℝ) (g : GraphOps A DS ℝ) (n1 : ℕ) (step1 : List (List A))
+    (matrices : List A → AdaGrid.Mat ℝ) (cell : List A → R → ℕ) (size : List A → ℕ)
+    (attrs targets : List A) (xest : List A → List ℝ) (msize : List A → ℝ) (mcl : List (List A)) (draws : ℕ → ℕ)
+    (D D' : List R) (h1 : 0 < rho1) (h3 : 0 < rho3) (hn1 : step1.length ≤ n1) :
+    ∀ ev ∈ adaEvents inf fmax rho1 rho2 rho3 g n1 step1 matrices cell size attrs targets xest msize mcl draws D D',
+      PosScale ev := by
+  intro ev hev
+  unfold adaEvents at hev
+  rcases List.mem_append.1 hev with hev | hev
+  · rcases List.mem_append.1 hev with hev | hev
+    · obtain ⟨cl, hcl, rfl⟩ := List.mem_map.1 hev
+      have hpos : (0 : ℝ) < n1 := by
+        have : 0 < step1.length := List.length_pos_of_mem hcl
+        exact_mod_cast lt_of_lt_of_le this hn1
+      show 0 < ada_step1_scale _
+      simp only [ada_step1_scale, ada_step1_sigma]; positivity
+    · obtain ⟨i, hi, rfl⟩ := List.getElem_of_mem hev
+      simp only [List.getElem_zipWith]; trivial
+  · obtain ⟨cl, hcl, rfl⟩ := List.mem_map.1 hev
+    have hpos : (0 : ℝ) < ((ada_select_call npR g (marg cell size D) attrs xest msize mcl rho2 targets draws).1.length : ℕ) := by
+      exact_mod_cast List.length_pos_of_mem hcl
+    show 0 < ada_step3_scale _
+    simp only [ada_step3_scale, ada_step3_sigma]; positivity
 end ada
 
 /-! ## 7. the hypotheses are satisfiable (each end-to-end theorem applied to a concrete run) -/
